@@ -637,6 +637,60 @@ def emit_harness(prog, confs, steps, tag, throws=False, proj=KINDS_ALL, check_re
     return '\n'.join(out) + '\n', index
 
 
+def emit_liveness_harness(prog, confs, tag, proj):
+    """C12 'the machine is not wedged': confs are configurations reached by a prefix in which an exception aborted the entry
+    cascade of a submachine that is (by the switch policy) the active state afterwards.  What the ids inside it are is not
+    specified, so the reference cannot predict the next step exactly; the oracle is the part that holds for EVERY choice of
+    inner states: an event submitted afterwards is dispatched (some guard, action, entry, exit or no_transition is observed).
+    Event kinds for which some choice of inner states and guard valuation gives an empty log are excluded."""
+    import itertools
+    out = ['/* generated by vf/emit.py: liveness after an aborted submachine entry, %s (%s) */' % (prog.name, tag), '#include "vf_harness.h"']
+    sites = guard_sites(prog)
+    out.append('#define VF_NSITES %d' % ((max(sites) + 1) if sites else 1))
+    index = []
+    for ci, (conf, script) in enumerate(confs):
+        kinds = []
+        for k, ev in enumerate(prog.events):
+            ok = True
+            ms = [m for m in prog.machines if m.name in conf.unspec]
+            for combo in itertools.product(*[list(itertools.product(*m.regions)) for m in ms]):
+                c2 = conf.clone(); c2.unspec = set()
+                for m, act in zip(ms, combo): c2.m[m.name]['active'] = list(act)
+                for dec, log, res, post in explore(prog, c2, lambda sem, ev=ev: run_step(sem, ('ev', ev, 'P'))):
+                    if not any(ent[0] in proj for ent in log): ok = False
+            if ok: kinds.append(k)
+        out.append('void harness_p%d(void) {' % ci)
+        out.append('  vf_init();')
+        out.append('  vf_projmask = %s;' % ' | '.join('VF_M_' + k for k in proj))
+        out.append('  vf_in_prefix = 1;')
+        for st, dec in script: out.append('  ' + step_call(prog, st, dec))
+        out.append('  vf_in_prefix = 0; vf_throw_site = -1; vf_throw_site0 = -1;')
+        for l in post_checks(prog, conf, tag + ':prefix'): out.append('  ' + l)
+        out.append('  uint32_t sel = vf_nondet(0); VF_ASSUME(sel == 0);')
+        out.append('  uint32_t kind = vf_nondet(1); VF_ASSUME(%s);' % (' || '.join('kind == %d' % k for k in kinds) or '0'))
+        out.append('#ifdef VF_KIND')
+        out.append('  kind = VF_KIND; vf_inputs[1] = kind; VF_ASSUME(%s);' % (' || '.join('kind == %d' % k for k in kinds) or '0'))
+        out.append('#endif')
+        out.append('  int32_t P = (int32_t)vf_nondet(2);')
+        out.append('#ifndef VF_GFIX_MASK')
+        out.append('#define VF_GFIX_MASK 0u')
+        out.append('#define VF_GFIX_VAL 0u')
+        out.append('#endif')
+        out.append('  vf_nondet_guards(VF_GFIX_MASK, VF_GFIX_VAL);')
+        out.append('  vf_nlog = 0;')
+        out.append('  (void)VF_EV(kind, P);')
+        out.append('  VF_CHECK(vf_nlog > 0, "%s:wedged - an event submitted after the aborted entry is not dispatched");' % tag)
+        out.append('  VF_WITNESS();')
+        out.append('}')
+        index.append({'harness': 'harness_p%d' % ci, 'conf': conf_str(conf) + ' (entry of %s aborted at site %s)' % (','.join(sorted(conf.unspec)), [k_ - 1000 for k_, v_ in script[-1][1].items() if k_ >= 1000 and v_]),
+                      'script': [(list(st), dec) for st, dec in script], 'paths': len(kinds), 'decs_by_kind': {}, 'nalt': 1, 'has_ev': True, 'copy_modes': None})
+    out.append('#ifndef __CPROVER__')
+    out.append('void (*vf_harnesses[])(void) = {%s};' % ', '.join('harness_p%d' % i for i in range(len(confs))))
+    out.append('int vf_nharness = %d;' % len(confs))
+    out.append('#endif')
+    return '\n'.join(out) + '\n', index
+
+
 def conf_str(conf):
     parts = []
     for m in conf.active_machines() if conf.started else []:
